@@ -13,7 +13,7 @@
 From stdpp Require Import gmap list relations.
 From Coq Require Import NArith ZArith Lia.
 From VFS Require Import Core.Types Core.Prog Core.Calls Base.MemFS Base.Handles Base.PhysFS Base.Embedded Base.Store
-  Layer.VfsPath Layer.Overlay Proofs.ProgProofs Proofs.MemProofs Proofs.MemCalls Proofs.ConcProofs Proofs.OvlProofs.
+  Layer.VfsPath Layer.Overlay Proofs.ProgProofs Proofs.MemProofs Proofs.MemCalls Proofs.ConcProofs Proofs.OvlProofs Proofs.CallsOk Proofs.AdapterOk.
 
 (** ** interleaved semantics: one base call per scheduling step *)
 Notation tpool := (list (bprog (res unit))).
@@ -664,4 +664,23 @@ Proof.
   - rewrite bool_decide_eq_true_2 by eauto. reflexivity.
   - rewrite Hm, Hd. rewrite (bool_decide_eq_false_2 (is_Some None)) by (intros [? ?]; discriminate).
     rewrite (bool_decide_eq_true_2 (is_Some (Some d))) by eauto. cbn. apply orb_true_r.
+Qed.
+
+(** every call a create_dir_all thread can issue - whatever the replies - is a trait call of one of the
+    two MemoryFS layers (or a handle operation, of which create_dir has none): with
+    [single_section] (each such call is one lock section) a scheduling step of [prun] is a step at the
+    implementation's lock granularity *)
+Definition layer_call (b : bcall) : Prop :=
+  match b with BFs i _ => i < 2 | BH _ _ => True | BLog _ _ => False end.
+
+Lemma cda_calls (P : path) : calls_ok layer_call (vp_create_dir_all ovl P).
+Proof.
+  assert (Himpl : forall c, calls_ok layer_call (ovl_impl (v0, []) [(v1, [])] c)).
+  { apply ovl_impl_ok.
+    - intros h o. exact I.
+    - intros c. cbn. constructor; [cbn; lia|]. intros x. constructor.
+    - constructor; [|constructor]. split; intros; cbn; (constructor; [cbn; lia|]); intros x; constructor. }
+  unfold vp_create_dir_all. induction (prefixes P) as [|d ds IH]; cbn [create_dirs]; [constructor|].
+  apply calls_ok_bind; [apply Himpl|]. intros [u|e|]; [exact IH| |constructor].
+  destruct (e_kind e); try constructor. exact IH.
 Qed.
